@@ -241,7 +241,8 @@ class Renderer(object):
         elif r < 0.86:
             self.emit("\n\n" + self.rng.choice(["", "  "]))
         elif r < 0.93:
-            self.emit(" # " + self.rng.choice(["comment", "A = B(C = 1)", "x, y: [z]", "'quote", "trailing \"q\""]) + "\n" + self.rng.choice(["", "  "]))
+            # a comment starts at the '#', wherever it stands: after a blank, or glued to the token before it and to its own text
+            self.emit(self.rng.choice([" # ", " # ", " #", "# ", "#"]) + self.rng.choice(["comment", "A = B(C = 1)", "x, y: [z]", "'quote", "trailing \"q\"", "note", "5", "ff0000"]) + "\n" + self.rng.choice(["", "  "]))
         else:
             self.emit("\n# " + self.rng.choice(["a comment line", "Result = Cmd(", ")"]) + "\n   ")
 
